@@ -332,10 +332,29 @@ def judge_design(c, b, drv):
         if w.get("status") != 200:
             c.fail("c08/status", "%s view %r: status %s %s" % (m["name"], view, w.get("status"), (w.get("resp_body") or "")[:200]), input=inp, design=b.design)
             continue
+        # attributes the design maps to response headers travel there, not in the body
+        hdr_map = {mp["attr"]: (mp.get("wire") or mp["attr"]) for r0 in ((m.get("http") or {}).get("responses") or []) for mp in (r0.get("headers") or [])}
+        expected_full = expected
+        if hdr_map and isinstance(expected, dict):
+            for an, wire_name in hdr_map.items():
+                if an in expected:
+                    hvs = (w.get("resp_headers") or {}).get(wire_name) or (w.get("resp_headers") or {}).get(wire_name.title())
+                    if not hvs or str(hvs[0]) != str(expected[an]):
+                        c.fail("c08/header-attribute", "%s view %r: attribute %s = %r is mapped to the header %s, the response carries %r" %
+                               (m["name"], view, an, expected[an], wire_name, hvs), input=inp, design=b.design)
+            expected = {k: v for k, v in expected.items() if k not in hdr_map}
+        # known finding: a recursive result type with a header-mapped attribute uses ONE body type (without the attribute) for the
+        # nested occurrences too
+        rec_hdr = bool(hdr_map) and any((f["att"].get("type") or {}).get("ref") == T for f in rts[T]["att"]["type"].get("object") or [])
+
+        def only_nested_header_attrs(paths):
+            return bool(paths) and all(p.count("/") > 1 and p.rsplit("/", 1)[1] in hdr_map for p in paths)
         if canon(body) != canon(expected):
             leaked = sorted(set(flat_keys(body)) - set(flat_keys(expected)))
             missing = sorted(set(flat_keys(expected)) - set(flat_keys(body)))
             sig = "c08/wire-leak" if leaked else ("c08/wire-missing" if missing else "c08/wire-value")
+            if rec_hdr and not leaked and only_nested_header_attrs(missing):
+                sig = "c08/header-mapped-attribute-lost-in-nested-self-reference"
             c.fail(sig, "%s view %r: on the wire %s, the view selects %s (extra %s, missing %s)" %
                    (m["name"], view, json.dumps(body)[:300], json.dumps(expected)[:300], leaked[:4], missing[:4]), input=inp, design=b.design)
         hv = (w.get("resp_headers") or {}).get("Goa-View")
@@ -345,16 +364,23 @@ def judge_design(c, b, drv):
             hv = want_h  # no header means the default view
         if hv != want_h:
             c.fail("c08/goa-view-header", "%s view %r: goa-view header %s, expected %s" % (m["name"], view, hv, want_h), input=inp, design=b.design)
+        expected = expected_full
         # --- the client
         if o.get("client_error"):
-            c.fail("c08/client-refuses-valid", "%s view %r: the client refused the response: %s" % (m["name"], view, o["client_error"].get("message", "")[:300]),
+            msg = o["client_error"].get("message", "")
+            sig = "c08/client-refuses-valid"
+            if rec_hdr and any('"%s" is missing' % an in msg for an in hdr_map):
+                sig = "c08/header-mapped-attribute-lost-in-nested-self-reference"
+            c.fail(sig, "%s view %r: the client refused the response: %s" % (m["name"], view, msg[:300]),
                    input=inp, design=b.design)
         elif canon(drop_zero_extras(o.get("client_result"), expected)) != canon(expected):
             got = drop_zero_extras(o.get("client_result"), expected)
             missing = sorted(set(flat_keys(expected)) - set(flat_keys(got)))
             extra = sorted(set(flat_keys(got)) - set(flat_keys(expected)))
             sig = "c08/client-result"
-            if missing and not extra and all(outside_nested_default(rts, T, p) for p in missing) and \
+            if rec_hdr and not extra and only_nested_header_attrs(missing):
+                sig = "c08/header-mapped-attribute-lost-in-nested-self-reference"
+            elif missing and not extra and all(outside_nested_default(rts, T, p) for p in missing) and \
                     canon(strip_paths(expected, missing)) == canon(strip_paths(got, missing)):
                 sig = "c08/client-drops-nested-attrs-outside-nested-default-view"
             c.fail(sig, "%s view %r: the client returned %s, the view selects %s" %
